@@ -70,20 +70,35 @@ def _eip_cases():
     out = []
     for first in ('peak', 'trough'):
         A, B = ('peaks', 'troughs') if first == 'peak' else ('troughs', 'peaks')
+        # midpoints of the flanks A -> B and B -> A
+        MA, MB = ('decays', 'rises') if first == 'peak' else ('rises', 'decays')
+        counts = "len({B}) >= 1 and (len({A}) == len({B}) or len({A}) == len({B}) + 1)".format(A=A, B=B)
+        alternate = [
+            # alternating extrema, at least two samples apart, inside the signal; at least one of each kind
+            "forall(k, 0 <= k < len({B}), 0 <= {A}[k] and {A}[k] + 2 <= {B}[k] and {B}[k] < len(sig))".format(A=A, B=B),
+            "forall(k, 0 <= k < len({A}) - 1, {B}[k] + 2 <= {A}[k + 1] and {A}[k + 1] < len(sig))".format(A=A, B=B)]
         out.append(dict(
             label='no-midpoints,%s-first' % first,
             params={'sig': ('arr', XR), 'peaks': ('arr', INT), 'troughs': ('arr', INT), 'rises': 'none', 'decays': 'none'},
-            requires=[
-                # alternating extrema, at least two samples apart, inside the signal; at least one of each kind
-                "len({B}) >= 1 and (len({A}) == len({B}) or len({A}) == len({B}) + 1)".format(A=A, B=B),
-                "forall(k, 0 <= k < len({B}), 0 <= {A}[k] and {A}[k] + 2 <= {B}[k] and {B}[k] < len(sig))".format(A=A, B=B),
-                "forall(k, 0 <= k < len({A}) - 1, {B}[k] + 2 <= {A}[k + 1] and {A}[k + 1] < len(sig))".format(A=A, B=B),
-            ],
+            requires=[counts] + alternate,
             proof={('before_lib', 'numpy.interp', 1): phase_eip.before_interp(first),
                    ('before_lib', 'numpy.interp', 2): phase_eip.before_interp(first),
                    ('before_assign', 'pha'): phase_eip.before_merge(first),
                    ('before_return',): phase_eip.before_return(first)},
             ensures=list(phase_eip.ENSURES), ensures_using=dict(phase_eip.ENSURES_USING)))
+        out.append(dict(
+            label='midpoints,%s-first' % first,
+            params={'sig': ('arr', XR), 'peaks': ('arr', INT), 'troughs': ('arr', INT), 'rises': ('arr', INT), 'decays': ('arr', INT)},
+            requires=[
+                # one midpoint per flank, inside its closed flank (the postcondition of find_zerox): it may sit on an extremum
+                counts + " and len({MA}) == len({B}) and len({MB}) == len({A}) - 1".format(A=A, B=B, MA=MA, MB=MB)] + alternate + [
+                "forall(k, 0 <= k < len({MA}), {A}[k] <= {MA}[k] and {MA}[k] <= {B}[k])".format(A=A, B=B, MA=MA),
+                "forall(k, 0 <= k < len({MB}), {B}[k] <= {MB}[k] and {MB}[k] <= {A}[k + 1])".format(A=A, B=B, MB=MB)],
+            proof={('before_lib', 'numpy.interp', 1): phase_eip.before_interp(first, 'mid'),
+                   ('before_lib', 'numpy.interp', 2): phase_eip.before_interp(first, 'mid'),
+                   ('before_assign', 'pha'): phase_eip.before_merge(first, 'mid'),
+                   ('before_return',): phase_eip.before_return(first, 'mid')},
+            ensures=list(phase_eip.ENSURES) + phase_eip.midpoint_clauses(first), ensures_using=dict(phase_eip.ENSURES_USING_MID)))
     return out
 
 
